@@ -186,13 +186,41 @@ pub fn cmd_run(seed: u64, runs_per_subject: usize, growth_log2: u32, out: &str) 
                             }
                             r.ev(json!({"ev": "merge", "d": 3, "srcs": [1, 2]}));
                         }
-                        let all: Vec<Value> = contents.concat();
-                        for v in &all {
-                            if rng.gen_bool(0.5) {
-                                r.any_form = Some(rng.gen_range(0..subj.forms.len()));
-                            }
-                            if !r.push(&mut slots, 2, v) {
-                                break;
+                        // the announced contents arrive as owned values in any input form, or as the read items of
+                        // the very source regions (region-to-region copy)
+                        let mut stop = false;
+                        for (si, c) in contents.iter().enumerate() {
+                            for (i, v) in c.iter().enumerate() {
+                                if stop {
+                                    break;
+                                }
+                                if subj.caps["push_item"] == json!(true) && rng.gen_bool(0.35) && i < slots[si].n() {
+                                    let cb = caps_of(&*slots[2]);
+                                    crate::alloc::window_take();
+                                    let res = {
+                                        let (a, b) = slots.split_at_mut(2);
+                                        guarded(|| b[0].push_from(&*a[si], i, "region"))
+                                    };
+                                    let n = crate::alloc::window_take();
+                                    match res {
+                                        Ok(Some(_)) => {
+                                            let ca = caps_of(&*slots[2]);
+                                            r.ev(json!({"ev": "push", "s": 3, "v": v, "cb": cb, "ca": ca, "allocs": n, "panic": false, "measured": true, "form": "read-item"}));
+                                        }
+                                        Ok(None) => {
+                                            stop = !r.push(&mut slots, 2, v);
+                                        }
+                                        Err(m) => {
+                                            r.ev(json!({"ev": "push", "s": 3, "v": v, "cb": cb, "ca": cb, "allocs": 0, "panic": true, "msg": m, "measured": true, "form": "read-item"}));
+                                            stop = true;
+                                        }
+                                    }
+                                    continue;
+                                }
+                                if rng.gen_bool(0.5) {
+                                    r.any_form = Some(rng.gen_range(0..subj.forms.len()));
+                                }
+                                stop = !r.push(&mut slots, 2, v);
                             }
                         }
                     }
